@@ -840,7 +840,7 @@ func c12aShadowOracle(env *c12aEnv, ini *c12aInitState, nAddr int, seq []c12aOp,
 	if cs == nil {
 		cs, bad, _ = c12aCommitOf(env, ini, nAddr, shadow, persist, false)
 		if memo != nil && bad < 0 {
-			if len(memo) > 400000 {
+			if len(memo) > 120000 { // ~2 kB per entry
 				clear(memo)
 			}
 			memo[key] = cs
